@@ -524,6 +524,33 @@ def _context_harnesses():
             obs.append(Ob("C17/context/visible-during-evaluation", z3.BoolVal(all(t == flt.tag for t in seen[n0:])), note=f"host function saw {seen[n0:]}"))
             if lib.C7N is not None:
                 lib.C7N = None  # do not let one failure poison the next step of the sequence
+        # the same program and filter inside an explicit, enclosing context of another filter (the documented `with C7NContext(filter):`
+        # usage), then outside again, then with another filter: every evaluation sees its own filter and leaves no context behind
+        f3 = _Filter("F3")
+        bx = {"x": ct.IntType(mk(SInt, X, vals["x"]))}
+        n0 = len(seen)
+        with lib.C7NContext(filter=f3):
+            kd, r = common.outcome(lambda: p1.evaluate(bx, f1))
+        obs.append(Ob("C17/context/cleared-after-enclosing-block", z3.BoolVal(lib.C7N is None), note=f"after the with-block: C7N = {lib.C7N!r}"[:120], tags={"outcome": kd}))
+        obs.append(Ob("C17/context/visible-during-evaluation", z3.BoolVal(all(t == "F1" for t in seen[n0:])), note=f"inside an enclosing context the host function saw {seen[n0:]}"))
+        lib.C7N = None
+        # ... and a program whose FIRST evaluation with its filter happens inside the enclosing block
+        p5, f4 = make("probe(10 / x)"), _Filter("F4")
+        n0 = len(seen)
+        with lib.C7NContext(filter=f3):
+            kd, r = common.outcome(lambda: p5.evaluate(bx, f4))
+        obs.append(Ob("C17/context/cleared-after-enclosing-block", z3.BoolVal(lib.C7N is None), note=f"after the with-block: C7N = {lib.C7N!r}"[:120], tags={"outcome": kd}))
+        obs.append(Ob("C17/context/visible-during-evaluation", z3.BoolVal(all(t == "F4" for t in seen[n0:])), note=f"inside an enclosing context the host function saw {seen[n0:]}"))
+        lib.C7N = None
+        kd, r = common.outcome(lambda: p5.evaluate(bx, f4))
+        obs.append(Ob("C17/context/cleared-after-evaluation", z3.BoolVal(lib.C7N is None), note=f"same program and filter outside the block, outcome {kd}; C7N afterwards = {lib.C7N!r}"[:140], tags={"outcome": kd}))
+        lib.C7N = None
+        for flt in (f1, f2, f1):
+            n0 = len(seen)
+            kd, r = common.outcome(lambda: p1.evaluate(bx, flt))
+            obs.append(Ob("C17/context/cleared-after-evaluation", z3.BoolVal(lib.C7N is None), note=f"re-evaluation after an enclosing block, outcome {kd}; C7N afterwards = {lib.C7N!r}"[:140], tags={"outcome": kd}))
+            obs.append(Ob("C17/context/visible-during-evaluation", z3.BoolVal(all(t == flt.tag for t in seen[n0:])), note=f"host function saw {seen[n0:]}"))
+            lib.C7N = None
         return obs
 
     def witness(vals):
